@@ -36,17 +36,25 @@ theorem chunkSizes_ok (img : Image) : ∀ n ∈ chunkSizes img, n ≤ 4096 ∧ n
   have := chunksGo_sizes 4096 (by decide) _ _ hlen c hc
   exact ⟨this.1, this.2.1⟩
 
+/-- the transmitted command of `img` under id `id`, its payload read as `data` -/
+def txCmdD (id : Nat) (img : Image) (data : List UInt8) : KCmd :=
+  .transmit false id 32 img.shape.width img.shape.height none data (chunkSizes img)
+
 /-- the transmitted command of `img` under id `id` -/
 def txCmd (id : Nat) (img : Image) : KCmd :=
   .transmit false id 32 img.shape.width img.shape.height none (content img).pix (chunkSizes img)
 
-theorem emits_tx {img : Image} (wf : WF img) (hne : img.isEmpty = false) (id q : Nat) :
-    Emits (emitChunks id img.shape.height img.shape.width q (chunks 4096 (payloadOf img)).length 0
-      (chunks 4096 (payloadOf img))) [txCmd id img] := by
+theorem txCmd_eq (id : Nat) (img : Image) : txCmd id img = txCmdD id img (content img).pix := rfl
+
+/-- the transmission part of `draw` read with any payload decoder `dec` that reads the text as `data` -/
+theorem emits_tx_with {dec : List UInt8 → Option (List UInt8)} {img : Image} {data : List UInt8} (wf : WF img)
+    (hne : img.isEmpty = false) (hdec : dec (payloadOf img) = some data) (id q : Nat) :
+    EmitsWith dec (emitChunks id img.shape.height img.shape.width q (chunks 4096 (payloadOf img)).length 0
+      (chunks 4096 (payloadOf img))) [txCmdD id img data] := by
   have hflat : (chunks 4096 (payloadOf img)).flatten = payloadOf img :=
     chunksGo_flatten 4096 (by decide) _ _ (Nat.le_refl _)
-  have hd : rfcDecode (chunks 4096 (payloadOf img)).flatten = some (content img).pix := by
-    rw [hflat]; unfold payloadOf; rw [rfcDecode_encode, iter_bytes img wf]
+  have hd : dec (chunks 4096 (payloadOf img)).flatten = some data := by
+    rw [hflat]; exact hdec
   have hcne : chunks 4096 (payloadOf img) ≠ [] :=
     chunksGo_ne_nil 4096 _ _ (payload_ne_nil wf hne) (Nat.le_refl _)
   have hlen : (payloadOf img).length % 4 = 0 := by
@@ -57,21 +65,44 @@ theorem emits_tx {img : Image} (wf : WF img) (hne : img.isEmpty = false) (id q :
     exact rfcEncode_no_esc _ b this
   exact emits_transmit id _ _ q _ hcne _ hd hesc
 
+/-- the strict RFC 4648 decoder reads the payload text as the pixels, row-major -/
+theorem payload_decode {img : Image} (wf : WF img) : rfcDecode (payloadOf img) = some (content img).pix := by
+  unfold payloadOf; rw [rfcDecode_encode, iter_bytes img wf]
+
+theorem emits_tx {img : Image} (wf : WF img) (hne : img.isEmpty = false) (id q : Nat) :
+    Emits (emitChunks id img.shape.height img.shape.width q (chunks 4096 (payloadOf img)).length 0
+      (chunks 4096 (payloadOf img))) [txCmd id img] :=
+  emits_tx_with wf hne (payload_decode wf) id q
+
+/-- commands of `draw` for a non-empty image, the payload read as `data` -/
+def drawCmdsD (hash : Image → UInt64) (h : Handler) (img : Image) (row col : Nat) (data : List UInt8) : List KCmd :=
+  (if h.contains (idOf hash img) then [] else [txCmdD (idOf hash img) img data])
+    ++ [.put (idOf hash img) (placementId row col)]
+
 /-- commands of `draw` for a non-empty image -/
 def drawCmds (hash : Image → UInt64) (h : Handler) (img : Image) (row col : Nat) : List KCmd :=
   (if h.contains (idOf hash img) then [] else [txCmd (idOf hash img) img])
     ++ [.put (idOf hash img) (placementId row col)]
 
-theorem emits_draw (hash : Image → UInt64) (h : Handler) {img : Image} (wf : WF img)
-    (hne : img.isEmpty = false) (row col : Nat) :
-    Emits (draw hash h img row col).2 (drawCmds hash h img row col) := by
-  unfold draw drawCmds
+theorem drawCmds_eq (hash : Image → UInt64) (h : Handler) (img : Image) (row col : Nat) :
+    drawCmds hash h img row col = drawCmdsD hash h img row col (content img).pix := rfl
+
+theorem emits_draw_with {dec : List UInt8 → Option (List UInt8)} (hash : Image → UInt64) (h : Handler)
+    {img : Image} {data : List UInt8} (wf : WF img) (hne : img.isEmpty = false)
+    (hdec : dec (payloadOf img) = some data) (row col : Nat) :
+    EmitsWith dec (draw hash h img row col).2 (drawCmdsD hash h img row col data) := by
+  unfold draw drawCmdsD
   simp only [hne, Bool.false_eq_true, if_false]
   by_cases hc : h.contains (idOf hash img) = true
   · simp only [hc, if_true]
-    exact Emits.nil.append (emits_put _ _ _)
+    exact EmitsWith.nil.append (emits_put _ _ _)
   · simp only [hc]
-    exact (emits_tx wf hne _ _).append (emits_put _ _ _)
+    exact (emits_tx_with wf hne hdec _ _).append (emits_put _ _ _)
+
+theorem emits_draw (hash : Image → UInt64) (h : Handler) {img : Image} (wf : WF img)
+    (hne : img.isEmpty = false) (row col : Nat) :
+    Emits (draw hash h img row col).2 (drawCmds hash h img row col) :=
+  emits_draw_with hash h wf hne (payload_decode wf) row col
 
 theorem draw_empty (hash : Image → UInt64) (h : Handler) (img : Image) (he : img.isEmpty = true)
     (row col : Nat) : draw hash h img row col = (h, []) := by
